@@ -249,11 +249,11 @@ def run_mismatch_shards(prop: str, tie: str, header: str, fn: str, eqb: str,
             if rc != 0:
                 errors.append(f"shard {k}: coqc rc={rc}: {out[-1500:]}")
                 continue
-            m = re.search(r"=\s*\((\[[^\]]*\]|nil),\s*\[(\d+)\]\)", out, re.S)
+            m = re.search(r"=\s*\((\[[^\]]*\]|nil),\s*\[(\d+)(?:%nat)?\]\)", out, re.S)
             if not m or int(m.group(2)) != len(shards[k]):
                 errors.append(f"shard {k}: unexpected output: {out[-800:]}")
                 continue
-            lists = [[int(x) for x in re.findall(r"\d+", m.group(1))]]
+            lists = [[int(x) for x in re.findall(r"(\d+)(?:%nat)?", m.group(1))]]
             mism.extend(k * shard + i for i in lists[0])
     return mism, errors
 
